@@ -281,6 +281,28 @@ func c10Sequence(c *Ctx, kind string, keys []string, seqIdx int) {
 			judge(l, o, "prefix-buckets-setup")
 		}
 	}
+	// deterministic (first sequence of every backend): a multi-delete of percent-encoded spellings of
+	// existing keys deletes keys of exactly those names (which do not exist), not the keys they decode to
+	if seqIdx == 0 {
+		b := buckets[0]
+		alias := []string{"dir%2Ffile", "%6b", "secre%74", "dir%2ffile"}
+		addr := map[string]bool{}
+		var objs []ObjID
+		for _, k := range alias {
+			addr[b+"\x00"+k] = true
+			objs = append(objs, ObjID{Key: k})
+		}
+		before := takeSnap(r, buckets)
+		line, obs := r.DelMulti(b, objs)
+		after := takeSnap(r, buckets)
+		c.R.Evaluations++
+		if v := frameViolations(before, after, addr, ""); len(v) > 0 {
+			c.mismatch(Mismatch{Kind: "spec", Backend: kind, Case: append(append([]string{}, r.Lines...), line), Impl: obs + " ; " + strings.Join(v, " ; "),
+				Spec: "a multi-delete of dir%2Ffile, %6b, secre%74 changes no other key (dir/file, k, secret stay)", Finger: "c10:frame:deleteMulti:percent-encoded"})
+			return
+		}
+		judge(line, obs, "percent-encoded-multi-delete")
+	}
 	// deterministic (first sequence of every backend): names of the backend's own storage never read
 	// as a bucket, whatever the kind of listing
 	if seqIdx == 0 {
